@@ -261,7 +261,7 @@ def run_shard(ctx):
                 pass
         return t
 
-    ctx.run_given(mk, ctx.budget(40000, 1200000))
+    ctx.run_given(mk, ctx.budget(40000, 600000))
 
     def mkc():
         cases = st.fixed_dictionaries({"recv": st.sampled_from(["table", "row", "cell", "body", "list"]), "w": st.lists(st.integers(0, 11), min_size=3, max_size=7),
@@ -278,7 +278,7 @@ def run_shard(ctx):
                 pass
         return t
 
-    ctx.run_given(mkc, ctx.budget(6000, 150000), salt=2)
+    ctx.run_given(mkc, ctx.budget(6000, 80000), salt=2)
     if ctx.thorough:
         from lib.fuzz import run_campaign
 
